@@ -4,17 +4,18 @@ import os
 import vlib
 
 
-def cfg(prog, gprog, maxtables=3, recheck=True):
+def cfg(prog, gprog, maxtables=3, recheck=True, clearers="{}", clear_retries=True):
     return ("SPECIFICATION Spec\nCONSTANTS\n Keys = {1, 2, 3}\n S = 2\n H2 <- H2_c\n B2 <- B2_c\n Writers = {11, 12}\n Prog <- %s\n"
-            " Getters = {21}\n GProg <- %s\n Resizers = {31}\n MaxTables = %d\n Recheck = %s\n"
-            "INVARIANTS GetOK Agree SizeOK NoLockLeft MetaBeforePtr\nCHECK_DEADLOCK FALSE\n" %
-            (prog, gprog, maxtables, "TRUE" if recheck else "FALSE"))
+            " Getters = {21}\n GProg <- %s\n Resizers = {31}\n MaxTables = %d\n Recheck = %s\n Clearers = %s\n ClearRetries = %s\n"
+            "INVARIANTS GetOK ClearOK Agree SizeOK NoLockLeft MetaBeforePtr\nCHECK_DEADLOCK FALSE\n" %
+            (prog, gprog, maxtables, "TRUE" if recheck else "FALSE", clearers, "TRUE" if clear_retries else "FALSE"))
 
 
 def instances(quick):
     if quick:
-        return [("clht_q", cfg("Prog_q", "GProg_q")), ("clht_a", cfg("Prog_a", "GProg_a"))]
-    return [("clht_a", cfg("Prog_a", "GProg_a")), ("clht_b", cfg("Prog_b", "GProg_b")), ("clht_c", cfg("Prog_c", "GProg_a"))]
+        return [("clht_q", cfg("Prog_q", "GProg_q")), ("clht_a", cfg("Prog_a", "GProg_a")), ("clht_q_clear", cfg("Prog_q", "GProg_q", clearers="{41}"))]
+    return [("clht_a", cfg("Prog_a", "GProg_a")), ("clht_b", cfg("Prog_b", "GProg_b")), ("clht_c", cfg("Prog_c", "GProg_a")),
+            ("clht_a_clear", cfg("Prog_a", "GProg_a", clearers="{41}")), ("clht_b_clear", cfg("Prog_b", "GProg_b", clearers="{41}"))]
 
 
 def run_mc(work, tag, text, workers):
